@@ -42,6 +42,18 @@ class FileV:
         self.path = path
         self.dumped = False
 
+    def call_method(self, I, name, args, kwargs):
+        if name == "tell":
+            return I.ctx.fresh("file_position", "int")
+        if name in ("flush", "close"):
+            # flush() hands the data to the OS but the file is only counted complete when closed
+            # (the model is conservative: a crash with the handle still open may lose buffered data)
+            _effect(I, f"{name}({self.path.name})")
+            return None
+        if name == "fileno":
+            return I.ctx.fresh("fd", "int")
+        raise Unsupported(f"file.{name}")
+
 
 def fs(I):
     return I.ctx.ghost["fs"]
@@ -55,7 +67,8 @@ def _effect(I, op):
     n = ctx.ghost.get("fs_effects", 0) + 1
     ctx.ghost["fs_effects"] = n
     ctx.ghost.setdefault("fs_trace", []).append(op)
-    ctx.prove(f"crash-after:{op}#{n}", fs(I)["autosave.dat"] == COMPLETE, "crash-point")
+    # named after the effect (not its ordinal) so that reordering does not rename obligations
+    ctx.prove(f"crash-after:{op}", fs(I)["autosave.dat"] == COMPLETE, "crash-point")
 
 
 def m_open(I, path, mode="r", *a, **k):
